@@ -44,6 +44,9 @@ type cVar struct {
 	PK    string `json:"pk"`   // panic value kind
 	Fast  int    `json:"fast"` // 0 reflective where possible, 1 prefer the built-in fast paths, 2 user FastInvoker
 	Reqs  int    `json:"reqs"` // how many times the request is issued on the same instance
+	Bef   int    `json:"bef"`  // number of Flame.Before handlers
+	BStop int    `json:"bstop"` // which of them returns true (0 = none)
+	HS    bool   `json:"hs"`   // middleware installed through Handlers() (replacing a dummy stack) instead of Use()
 	Meth  string `json:"meth"` // request method (GET / HEAD / POST): a HEAD response forwards no body but is "written" all the same
 	RH    bool   `json:"rh"`   // a custom ReturnHandler is mapped in the injector: it replaces the default table
 	Der   bool   `json:"der"`  // "C" installs a derived request context first and cancels that one
@@ -365,6 +368,13 @@ func chainVarFor(c *chainCase, idx int) cVar {
 	v.Der = rng.Intn(2) == 0
 	v.RH = rng.Intn(5) == 0
 	v.Meth = []string{"GET", "GET", "HEAD", "POST"}[rng.Intn(4)]
+	v.HS = rng.Intn(3) == 0
+	if rng.Intn(4) == 0 {
+		v.Bef = 1 + rng.Intn(2)
+		if rng.Intn(3) == 0 {
+			v.BStop = 1 + rng.Intn(v.Bef)
+		}
+	}
 	v.Mw = rng.Intn(n + 1)
 	v.Group = rng.Intn(n - v.Mw + 1)
 	if rng.Intn(6) == 0 {
@@ -409,7 +419,19 @@ func chainReplay(raw json.RawMessage, idx int, tr *traceWriter) {
 	for i := 0; i < n; i++ {
 		hs[i] = x.handler(i)
 	}
-	f.Use(hs[:v.Mw]...)
+	for b := 1; b <= v.Bef; b++ {
+		b := b
+		f.Before(func(http.ResponseWriter, *http.Request) bool {
+			x.ev(map[string]interface{}{"e": "before", "i": b, "stop": b == v.BStop})
+			return b == v.BStop
+		})
+	}
+	if v.HS {
+		f.Use(func() { panic("replaced by Handlers()") }) // must be gone after Handlers()
+		f.Handlers(hs[:v.Mw]...)
+	} else {
+		f.Use(hs[:v.Mw]...)
+	}
 	if c.Progs[n].Kind != "nil" {
 		f.Action(x.handler(n))
 	}
